@@ -1,10 +1,10 @@
 #!/bin/sh
-# run every seeded change (rounds m*, n*, p*) against the check of its property; results -> /verif/seeded/RESULTS.txt
-# SEED_GLOB (default "[mnp]*") restricts the rounds; with SEED_APPEND=1 the results file is extended, not rewritten
+# run every seeded change (rounds m*, n*, p*, q*, s*, t*, u*) against the check of its property; results -> /verif/seeded/RESULTS.txt
+# SEED_GLOB (default: all rounds) restricts the rounds; with SEED_APPEND=1 the results file is extended, not rewritten
 # pass 1 without the Kani / native harnesses (fast); a change that survives pass 1 is re-run with them.
 # NOTE: mutates /repo while running and overwrites /verif/evidence: regenerate the evidence on the clean tree afterwards.
 out=/verif/seeded/RESULTS.txt
-glob=${SEED_GLOB:-[mnp]*}
+glob=${SEED_GLOB:-[mnpqstu]*}
 if [ "$SEED_APPEND" = "1" ]; then sed -i '/^done$/d' $out; else : > $out; fi
 for d in /verif/seeded/C*/$glob; do
   p=$(basename $(dirname $d)); m=$(basename $d)
